@@ -36,6 +36,44 @@ pub mod sync {
                 None
             }
         }
+        /// Sets the contents if the cell is empty; otherwise hands the value back.
+        pub fn set(&self, value: T) -> Result<(), T> {
+            match self.try_insert(value) {
+                Ok(_) => Ok(()),
+                Err((_, value)) => Err(value),
+            }
+        }
+
+        /// Like `set`, but also returns a reference to the final contents.
+        pub fn try_insert(&self, value: T) -> Result<&T, (&T, T)> {
+            let mut value = Some(value);
+            let r = self.get_or_init(|| value.take().unwrap());
+            match value {
+                None => Ok(r),
+                Some(value) => Err((r, value)),
+            }
+        }
+
+        pub fn get_or_try_init<F: FnOnce() -> Result<T, E>, E>(&self, f: F) -> Result<&T, E> {
+            if !self.done.load(Ordering::Acquire) {
+                let _g = self.lock.lock().unwrap();
+                if !self.done.load(Ordering::Acquire) {
+                    let v = f()?;
+                    unsafe { *self.value.get() = Some(v) };
+                    self.done.store(true, Ordering::Release);
+                }
+            }
+            Ok(unsafe { (*self.value.get()).as_ref().unwrap() })
+        }
+
+        pub fn get_mut(&mut self) -> Option<&mut T> {
+            self.value.get_mut().as_mut()
+        }
+
+        pub fn into_inner(self) -> Option<T> {
+            self.value.into_inner()
+        }
+
         pub fn get_or_init<F: FnOnce() -> T>(&self, f: F) -> &T {
             if !self.done.load(Ordering::Acquire) {
                 let _g = self.lock.lock().unwrap();
